@@ -136,6 +136,14 @@ check("C18", "exploration",
       "Statistical decision rule (deterministic given the seeds); numpy.random's global generator is seeded per trial from the case and restored.",
       "property-based testing (Hypothesis-generated cells) with a planted-defect oracle and a binomial decision rule", "DESIGN.md C18")
 
+check("C19", "fault_enumeration",
+      "Model-based histories over the process: successful nested differentiations, injected faults (k-th forward operation, backward/forward "
+      "rule, trace exit via warning-as-error) at nesting depth 1-3 under every mode assignment, caught at every enclosing level (which then "
+      "continues and must return the closed-form value) or not at all, VJP closures that fail part-way and are called again, re-entrant rules "
+      "and recursion; after every step a 25-entry canary table is bitwise equal to the table of a fresh subprocess and registries are preserved.",
+      "Trusted: the fresh-subprocess canary table as 'fresh interpreter' reference; faults are injected through user code only.",
+      "stateful / model-based property testing with fault injection (Hypothesis-drawn histories, invariants after every step)", "DESIGN.md C19")
+
 NOT_YET = {}
 
 
